@@ -398,7 +398,11 @@ class UpdateCommand(BaseUpdateMixin, GematoCommand):
                     logging.error('Incremental specified but no '
                                   'timestamp in Manifest')
                     return 1
-                update_kwargs['last_mtime'] = last_ts.ts.timestamp()
+                # NB: TIMESTAMP is in UTC, naive datetime would be taken
+                # for local time
+                update_kwargs['last_mtime'] = (
+                    last_ts.ts.replace(tzinfo=datetime.timezone.utc)
+                    .timestamp())
 
             logging.info(f'Updating Manifests in {p}...')
 
